@@ -237,7 +237,7 @@ def plans_for(chk):
     base = dict(oq.BASE)
     sc = oq.scale()
     if chk.quick:
-        return [("InitPart1", dict(base, K=1, GridKeepF=max(1, int(100 * sc)), GridKeep=max(1, int(30 * sc)), NQ=int(1800 * sc)))]
+        return [("InitPart1", dict(base, K=1, GridKeepF=max(1, int(70 * sc)), GridKeep=max(1, int(30 * sc)), NQ=int(1500 * sc)))]
     return [("InitPart1", dict(base, K=2, NQ=int(12000 * sc))),
             ("InitPart1", dict(base, K=1, NQ=int(12000 * sc))),
             ("InitPart1", dict(base, K=0, NQ=int(5000 * sc), NP=2, NC=3, NG=3)),
